@@ -3,6 +3,7 @@
    and records the rule expected to fire in mutants/own/<name>.rule"""
 import sys, subprocess, os, tempfile, shutil
 name, rule, path = sys.argv[1:4]
+MUTDIR = os.environ.get("MUTDIR", "own")
 spec = sys.stdin.read()
 old, new = spec.split("\n====\n")
 old = old.strip("\n"); new = new.rstrip("\n")
@@ -15,8 +16,8 @@ try:
     os.makedirs(os.path.dirname(a)); os.makedirs(os.path.dirname(b))
     open(a, "w").write(src); open(b, "w").write(src.replace(old, new))
     out = subprocess.run(["diff", "-u", "a/" + path, "b/" + path], cwd=d, capture_output=True, text=True).stdout
-    open(f"/verif/mutants/own/{name}.diff", "w").write(out)
-    open(f"/verif/mutants/own/{name}.rule", "w").write(rule + "\n")
+    open(f"/verif/mutants/{MUTDIR}/{name}.diff", "w").write(out)
+    open(f"/verif/mutants/{MUTDIR}/{name}.rule", "w").write(rule + "\n")
     print(name, "ok", len(out.splitlines()), "lines")
 finally:
     shutil.rmtree(d)
